@@ -1,19 +1,18 @@
 SPECIFICATION Spec
 CONSTANTS
-  Mode = "pure"
-  Shapes <- ShapesQuick
+  Mode = "pipeline"
+  Shapes <- ShapesPipe
   Names = {"prod", "web"}
   Prefixes = {"", "cls"}
-  RuleSets <- RuleSetsQuick
+  RuleSets <- RuleSetsAll
   DefaultKinds = {"det", "dyn"}
   DetRuleSets <- RuleSetsQuick
-  Encs = {"msgpack"}
-  Auths = {"ok"}
-  WithReload = FALSE
+  Encs = {"json", "msgpack", "event"}
+  Auths = {"ok", "fail"}
+  WithReload = TRUE
   Faithful = FALSE
   UpperHexIsClassic = FALSE
 INVARIANTS TypeOK EnvKeyUsesEnvironment ClassicKeyUsesDataset DocumentedShapes NeverWithoutSampler PrefixSeparates ExtractedIsWhatDeciderReads DecisionOfOneTarget NoUnknownEnvironmentIngested
 PROPERTY DecisionFollowsRules
-ACTION_CONSTRAINT Dump
 VIEW View
 CHECK_DEADLOCK FALSE
